@@ -5,6 +5,10 @@ import compat  # noqa: F401
 from props.base import nontrivial, corpus_for  # noqa: F401
 
 ID = 'C13'
+# ops that observe a private intermediate of the code (the private tables _dict / _keys / _set): a disagreement there alone -- every public op of the run agreeing,
+# no oracle clause failing -- is not counted (harness/check.py, PRIVATE_OPS)
+PRIVATE_OPS = ('citables',)
+
 LEAN_MODULES = ['PybtexModel.Props.C13', 'PybtexModel.Props.C13x', 'PybtexModel.Props.WiringC13']
 THEOREMS = {
     'C13_lockstep': 'the two tables of the code stay in lock step (same lower keys, no duplicates, spellings lower to their key) from construction with ANY pair list through every operation history',
